@@ -11,6 +11,7 @@ GENERIC = "ocaml/common/driver.ml"
 TOOLS = {
     "lex": ("Extract/LexExtract.v", "lexmodel", "ocaml/lex/driver.ml"),
     "echo": ("Extract/EchoExtract.v", "model", GENERIC),
+    "irinfo": ("Extract/IrInfoExtract.v", "model", GENERIC),
 }
 
 
